@@ -33,7 +33,7 @@ checks = {
          "Go-package inputs (missing, empty, ill-typed packages), template rendering, go/format and partial output on disk are outside: behind go list, reflection and I/O"),
  "C13": ("map-iteration dimension only. The iteration order of Go's built-in maps is an explicit oracle of the engine (a solver variable per map size and path, all n! orders for n<=4, rotations and reversals above): stablemap.Map under arbitrary Put/Remove/Clear sequences with arbitrary keys keeps insertion order; ModeBuilder.Build (normalizeInputs, NFAToDFA, optimize, mergeTransitions, pickAction) on three rule sets and ConstructLALR on an expression grammar produce identical serialised automata / tables under every explored order.",
          "stale files, working directories and other processes have no encoding here; map ranges in codegen that need go/types objects are read, not executed"),
- "C15": ("rang3 Contains/Intersects/Touches/Compare/Flatten/Subtract/Normalize (with container/heap, slices.SortFunc, stack) executed on arbitrary ranges 0<=B<=E<=U+10FFFF and an arbitrary probe code point: set-theoretic membership, sortedness, exact-union and pairwise-disjointness assertions decided for all values. k<=3 (Flatten), 2x2 (Subtract), k<=2 (Normalize) quick; 4, 3x3, 3 thorough.",
+ "C15": ("rang3 Contains/Intersects/Touches/Compare/Flatten/Subtract/Normalize (with container/heap, slices.SortFunc, stack) executed on arbitrary ranges 0<=B<=E<=U+10FFFF and an arbitrary probe code point: set-theoretic membership, sortedness, exact-union and pairwise-disjointness assertions decided for all values. k<=3 (Flatten), 2x2 (Subtract), k<=3 (Normalize) quick; 4, 3x3, 3 thorough. ast.CharClass.GetRanges and CharClassBinaryExpr.GetRanges with arbitrary items and an arbitrary negation flag: [..], ~[..] and [..]-[..] denote exactly their set-theoretic meaning over 0..U+10FFFF (k<=2, 1-1 quick; 3, 2-1, 1-2 thorough). Class syntax, escapes and literals are exercised through C02's items and C12/C17's templates.",
          "sort.Slice modelled as insertion sort calling the real less; list lengths bounded"),
  "C17": ("the real ParseLox on templates whose holes are names and range ends: a two-byte token name (letters, digits, underscore) in the default mode / inside a mode / in a second file — accepted iff it obeys the documented naming rules and is unique across tokens, macros, modes and rules; [lo-hi] in a token, a macro and a negated difference inside a mode — accepted iff lo <= hi; a two-byte name in @emit( ), @push_mode( ), a macro reference and a parser term — accepted iff something of the right kind is defined (tokens incl. @external, rules, modes, macros). On every rejection a printed diagnostic must be positioned on the line of the faulty declaration.",
          "predicate written from the documentation; position checked at line granularity; macro cycles, @start multiplicity and action multiplicity are not in the catalogue"),
